@@ -45,7 +45,8 @@ type vf43Probe struct {
 }
 
 type vf43Step struct {
-	Op     string      `json:"op"` // open, opencdn, kick, expire, kickcdn
+	Op     string      `json:"op"` // open, openbearer, kick, expire, kickcdn
+	Bearer string      `json:"bearer"`
 	Path   string      `json:"path"`
 	Cred   string      `json:"cred"`
 	IP     string      `json:"ip"`
@@ -132,6 +133,27 @@ func vf43Creds(c string) string {
 	return "Basic " + base64.StdEncoding.EncodeToString([]byte(up))
 }
 
+// vf43Authz is the Authorization header of an authorization token of HlsSession.tla.
+func vf43Authz(tok string) string {
+	switch tok {
+	case "cdn":
+		return "Bearer " + vf43CDNSecret
+	case "wrong":
+		return "Bearer " + vf43CDNSecret + "x"
+	case "bare":
+		return "Bearer"
+	case "barespace":
+		return "Bearer " // net/http removes the trailing space on both sides
+	case "lower":
+		return "bearer"
+	case "lowercdn":
+		return "bearer " + vf43CDNSecret
+	case "basic":
+		return vf43Creds("alice")
+	}
+	return ""
+}
+
 func (x *vf43Srv) get(url string, hdr map[string]string) (int, http.Header, []byte) {
 	req, err := http.NewRequest(http.MethodGet, x.base+url, nil)
 	if err != nil {
@@ -169,9 +191,6 @@ func (x *vf43Srv) open(path, authz, ip string, cookies bool) (string, string, []
 	}
 	switch status {
 	case http.StatusOK:
-		if authz == "Bearer "+vf43CDNSecret && x.s.CDNSecret != "" {
-			return "ok", "", body
-		}
 		secret := ""
 		for _, c := range h.Values("Set-Cookie") {
 			if strings.HasPrefix(c, sessionCookieName+"=") {
@@ -183,9 +202,7 @@ func (x *vf43Srv) open(path, authz, ip string, cookies bool) (string, string, []
 				secret = string(m[1])
 			}
 		}
-		if secret == "" {
-			x.t.Fatalf("vf43: playlist served without a session secret: %q", string(body))
-		}
+		// no secret: the playlist came through the server's CDN route (an observation)
 		return "ok", secret, body
 	case http.StatusUnauthorized:
 		return "refused", "", nil
@@ -417,11 +434,8 @@ func (x *vf43Srv) probe(p vf43Probe) map[string]any {
 			url += "?" + sessionQueryParamName + "=" + secret
 		}
 	}
-	switch p.Auth {
-	case "cdn":
-		hdr["Authorization"] = "Bearer " + vf43CDNSecret
-	case "wrong":
-		hdr["Authorization"] = "Bearer " + vf43CDNSecret + "x"
+	if a := vf43Authz(p.Auth); a != "" {
+		hdr["Authorization"] = a
 	}
 	status, _, body := x.get(url, hdr)
 	return map[string]any{
@@ -444,10 +458,10 @@ func vf43Replay(t testing.TB, mgr *auth.Manager, w *vf43Walk) map[string]any {
 	events := []map[string]any{}
 	for _, st := range w.Steps {
 		switch st.Op {
-		case "open", "opencdn":
+		case "open", "openbearer":
 			authz := vf43Creds(st.Cred)
-			if st.Op == "opencdn" {
-				authz = "Bearer " + vf43CDNSecret
+			if st.Op == "openbearer" {
+				authz = vf43Authz(st.Bearer)
 			}
 			res, secret, _ := x.open(st.Path, authz, st.IP, w.Cookie)
 			sid := 0
@@ -457,7 +471,7 @@ func vf43Replay(t testing.TB, mgr *auth.Manager, w *vf43Walk) map[string]any {
 				sid = len(x.secrets)
 			}
 			events = append(events, map[string]any{
-				"op": "open", "path": st.Path, "cred": st.Cred, "ip": st.IP, "cdn": st.Op == "opencdn", "res": res, "sid": sid,
+				"op": "open", "path": st.Path, "cred": st.Cred, "ip": st.IP, "bearer": st.Bearer, "res": res, "sid": sid,
 			})
 		case "kick", "expire":
 			if st.Sid < 1 || st.Sid > len(x.secrets) {
